@@ -16,6 +16,10 @@ use serde_json::{json, Value};
 use crate::prog::Program;
 
 pub const FAMILIES: [&str; 5] = ["tiny", "arith", "widgets", "ecc", "mixed"];
+/// Families on the far side of the 2^12 switch of the FFT / parallel paths:
+/// big  : `arith` padded to 2100 constraints (domain 4096)
+/// huge : `arith` padded to 4200 constraints (domain 8192)
+pub const LARGE_FAMILIES: [&str; 2] = ["big", "huge"];
 
 fn ops_tiny(s: u64) -> Vec<Value> {
     vec![
@@ -91,6 +95,12 @@ pub fn family_ops(name: &str, salt: u64) -> Option<Vec<Value>> {
         "widgets" => ops_widgets(salt),
         "ecc" => ops_ecc(salt),
         "mixed" => ops_mixed(salt),
+        "big" | "huge" => {
+            let mut v = ops_arith(salt);
+            v.pop(); // pad
+            v.push(json!({"op":"pad","to": if name == "big" { 2100 } else { 4200 }}));
+            v
+        }
         _ => return None,
     })
 }
